@@ -29,7 +29,10 @@ def run(ctx, rep):
         delegated_traversal(ctx, rep, f)
         g2_onwards(ctx, rep)
         return
-    n = coverage.check_recursion(rep, 'G1', ctx, f, 'SpecialRustType', ['get_dependencies_from_type'], 'get_dependencies_from_type')
+    if coverage.find_matches(f, 'SpecialRustType'):
+        n = coverage.check_recursion(rep, 'G1', ctx, f, 'SpecialRustType', ['get_dependencies_from_type'], 'get_dependencies_from_type')
+    else:
+        n = special_children_delegated(ctx, rep, f)
     rep.floor('G1', 'payload-carrying SpecialRustType variants', n, 5)
     # generic arguments as types
     ms = coverage.find_matches(f, 'RustType')
@@ -65,6 +68,31 @@ def g6(ctx, rep):
             n += 1
             rep.obligations.append(dict(o, rule='G6', key='G6:' + o['key'].split(':', 1)[1]))
     rep.floor('G6', 'item-vector discipline instances (from C03 S7)', n, 1)
+
+
+def special_children_delegated(ctx, rep, f):
+    """The container arm hands the work to a children iterator of SpecialRustType (`for p in special.parameters() { recurse(p) }`):
+    every child must then be yielded by that iterator — its own coverage is checked instead."""
+    site = {'file': f['file'], 'line': f['line']}
+    helper = None
+    for c in f['calls']:
+        if c.get('f') != 'get_dependencies_from_type' or not c.get('args'):
+            continue
+        v = vt.unvar(c['args'][0])
+        if isinstance(v, dict) and v.get('k') == 'elem':
+            of = vt.unvar(v.get('of'))
+            while isinstance(of, dict) and of.get('k') == 'call' and of.get('f') in ('iter', 'into_iter', 'by_ref') and of.get('recv') is not None:
+                of = vt.unvar(of['recv'])
+            r = vt.unvar(of.get('recv')) if isinstance(of, dict) and of.get('k') == 'call' else None
+            if isinstance(r, dict) and (r.get('k') == 'payload' and 'Special' in str(r.get('variant', '')) or 'SpecialRustType' in str(r.get('ty') or '')):
+                if not [fr for fr in c.get('guard', []) if fr.get('k') == 'if']:
+                    helper = of.get('f')
+    if helper is None:
+        raise core.Incomplete('get_dependencies_from_type: neither a match over SpecialRustType nor a loop over a children iterator of the special type found')
+    hs = [g for g in ctx.astq['functions'] if g['name'].split('::')[-1] == helper and (g.get('self_ty') or '').split('<')[0] == 'SpecialRustType']
+    if len(hs) != 1:
+        raise core.Incomplete(f'SpecialRustType::{helper} (children iterator used by get_dependencies_from_type) not found')
+    return coverage.check_recursion(rep, 'G1', ctx, hs[0], 'SpecialRustType', [], 'get_dependencies_from_type', uses_ok=True)
 
 
 def delegated_traversal(ctx, rep, f):
